@@ -7,7 +7,8 @@
 #![allow(dead_code)]
 
 use bytes::BytesMut;
-use domain::base::iana::{Class, OptionCode, Rtype};
+use domain::base::header::{Flags, Header, HeaderCounts, HeaderSection};
+use domain::base::iana::{Class, Opcode, OptRcode, OptionCode, Rcode, Rtype};
 use domain::base::message_builder::{
     AdditionalBuilder, AnswerBuilder, AuthorityBuilder, HashCompressor,
     MessageBuilder, QuestionBuilder, RecordSectionBuilder, StaticCompressor,
@@ -15,7 +16,10 @@ use domain::base::message_builder::{
 };
 use domain::base::record::ComposeRecord;
 use domain::base::{Question, Record};
-use domain::base::name::{Name, ParsedName};
+use std::str::FromStr;
+use domain::base::name::{Name, ParsedName, RelativeName, ToRelativeName};
+use domain::base::record::RecordHeader;
+use domain::base::wire::{compose_vec, Compose};
 use domain::base::rdata::{ComposeRecordData, ParseRecordData};
 use domain::base::wire::Composer;
 use domain::base::{Message, ToName, Ttl};
@@ -376,31 +380,7 @@ pub fn library_reparse(b: &[u8], acc: &[(u8, Item)]) -> Result<(), String> {
                 .to_record::<AllRecordData<_, ParsedName<_>>>()
                 .map_err(|e| format!("library: record data: {}", e))?
                 .ok_or("library: record data not parsed")?;
-            // the data as the library read it, written without compression
-            let mut got: Vec<u8> = vec![];
-            rec.data()
-                .compose_rdata(&mut got)
-                .map_err(|_| "library: compose".to_string())?;
-            let mut p = 0usize;
-            for part in &want.rd {
-                let (w, fold) = match part {
-                    Part::O(o) => (o.clone(), false),
-                    Part::F(n) => (vec![FILL; *n], false),
-                    Part::N(n, c) => (plain_name(n), *c),
-                };
-                if p + w.len() > got.len() {
-                    return Err("library: record data shorter".into());
-                }
-                let g = &got[p..p + w.len()];
-                let same = if fold { g.eq_ignore_ascii_case(&w) } else { g == &w[..] };
-                if !same {
-                    return Err(format!("library: record data differs at {}", p));
-                }
-                p += w.len();
-            }
-            if p != got.len() {
-                return Err("library: record data longer".into());
-            }
+            cmp_rdata(rec.data(), want, false)?;
         }
     }
     if it.next().is_some() {
@@ -409,17 +389,154 @@ pub fn library_reparse(b: &[u8], acc: &[(u8, Item)]) -> Result<(), String> {
     Ok(())
 }
 
+/// the data of a record as the library read it, written again without
+/// compression, compared part by part with the item
+fn cmp_rdata<D: ComposeRecordData>(data: &D, want: &Item, via_compose_vec: bool) -> Result<(), String> {
+    let got: Vec<u8> = if via_compose_vec {
+        compose_vec(|t| data.compose_rdata(t))
+    } else {
+        let mut got = vec![];
+        data.compose_rdata(&mut got).map_err(|_| "library: compose".to_string())?;
+        got
+    };
+    let mut p = 0usize;
+    for part in &want.rd {
+        let (w, fold) = match part {
+            Part::O(o) => (o.clone(), false),
+            Part::F(n) => (vec![FILL; *n], false),
+            Part::N(n, c) => (plain_name(n), *c),
+        };
+        if p + w.len() > got.len() {
+            return Err("library: record data shorter".into());
+        }
+        let g = &got[p..p + w.len()];
+        let same = if fold { g.eq_ignore_ascii_case(&w) } else { g == &w[..] };
+        if !same {
+            return Err(format!("library: record data differs at {}", p));
+        }
+        p += w.len();
+    }
+    if p != got.len() {
+        return Err("library: record data longer".into());
+    }
+    Ok(())
+}
+
+/// The octets read a second time with the parsing functions that work on a
+/// `Parser`: `HeaderSection::parse`, `Question::parse`, `Record::parse` or
+/// `RecordHeader::parse` + `parse_into_record`; the header section composed
+/// again and viewed through `for_message_slice_mut`; every record header
+/// composed again (`RecordHeader::compose`).
+pub fn library_reparse2(b: &[u8], acc: &[(u8, Item)], route: u32) -> Result<(), String> {
+    type Data<'a> = AllRecordData<&'a [u8], ParsedName<&'a [u8]>>;
+    let sl: &[u8] = b;
+    let mut parser = Parser::from_ref(&sl);
+    let hs = HeaderSection::parse(&mut parser).map_err(|e| format!("library2: header: {}", e))?;
+    if compose_vec(|t| hs.compose(t)) != b[..12] {
+        return Err("library2: header section composes to other octets".into());
+    }
+    let mut copy = b.to_vec();
+    {
+        let hm = HeaderSection::for_message_slice_mut(&mut copy);
+        let seen = hm.as_slice().to_vec();
+        let h: &mut Header = hm.as_mut();
+        let hsl = h.as_slice().to_vec();
+        let c: &mut HeaderCounts = hm.as_mut();
+        let csl = c.as_slice_mut().to_vec();
+        if seen != b[..12] || hsl != b[..4] || csl != b[4..12] {
+            return Err("library2: for_message_slice_mut shows other octets".into());
+        }
+    }
+    let c = hs.counts();
+    let counts = [c.qdcount(), c.ancount(), c.nscount(), c.arcount()];
+    let mut fresh = HeaderCounts::new();
+    fresh.set(*c);
+    if fresh.as_slice() != &b[4..12] {
+        return Err("library2: HeaderCounts::set".into());
+    }
+    for s in 1..=4u8 {
+        let want = acc.iter().filter(|(x, _)| *x == s).count();
+        if want != counts[s as usize - 1] as usize {
+            return Err(format!("library2: count of section {}", s));
+        }
+    }
+    for (i, (_, want)) in acc.iter().enumerate() {
+        let wn = name_of(&want.name).ok_or("bad name in item")?;
+        if want.question {
+            let q = Question::parse(&mut parser).map_err(|e| format!("library2: question: {}", e))?;
+            if !q.qname().name_eq(&wn)
+                || q.qtype().to_int() != want.rtype
+                || q.qclass().to_int() != want.class
+            {
+                return Err("library2: question differs".into());
+            }
+            continue;
+        }
+        let start = parser.pos();
+        let rec: Record<ParsedName<&[u8]>, Data<'_>> = if (route as usize + i) % 2 == 0 {
+            Record::parse(&mut parser)
+                .map_err(|e| format!("library2: record: {}", e))?
+                .ok_or("library2: record data not parsed")?
+        } else {
+            let h = RecordHeader::parse(&mut parser)
+                .map_err(|e| format!("library2: record header: {}", e))?;
+            // the header written again: the plain owner and the fixed fields
+            let mut exp = plain_name(&want.name);
+            exp.extend_from_slice(&want.rtype.to_be_bytes());
+            exp.extend_from_slice(&want.class.to_be_bytes());
+            exp.extend_from_slice(&want.ttl);
+            exp.extend_from_slice(&h.rdlen().to_be_bytes());
+            let got = compose_vec(|t| h.compose(t));
+            if !got[..exp.len() - 10].eq_ignore_ascii_case(&exp[..exp.len() - 10])
+                || got[exp.len() - 10..] != exp[exp.len() - 10..]
+            {
+                return Err("library2: record header composes to other octets".into());
+            }
+            h.parse_into_record(&mut parser)
+                .map_err(|e| format!("library2: record data: {}", e))?
+                .ok_or("library2: record data not parsed")?
+        };
+        if !rec.owner().name_eq(&wn)
+            || rec.rtype().to_int() != want.rtype
+            || rec.class().to_int() != want.class
+            || rec.ttl().as_secs() != u32::from_be_bytes(want.ttl)
+        {
+            return Err("library2: record header differs".into());
+        }
+        let _ = start;
+        cmp_rdata(rec.data(), want, true)?;
+    }
+    if parser.remaining() != 0 {
+        return Err("library2: trailing octets".into());
+    }
+    Ok(())
+}
+
 //------------ targets ---------------------------------------------------------
 
 pub trait Tgt: Composer + Sized {
     fn fresh() -> Self;
+    /// a message builder on a fresh target; the bare targets have
+    /// constructors of their own (`new_vec`, `new_bytes`, `new_stream_vec`,
+    /// `new_stream_bytes`), used when `alt` is set
+    fn fresh_builder(_alt: bool) -> MessageBuilder<Self> {
+        match MessageBuilder::from_target(Self::fresh()) {
+            Ok(b) => b,
+            Err(_) => panic!("from_target failed"),
+        }
+    }
     /// for stream targets: the complete stream slice (prefix + message)
     fn stream_slice(&self) -> Option<&[u8]>;
     /// finish through `into_message()` / `Message::from(builder)` where the
-    /// target can be frozen (the bare Vec, BytesMut and Array targets)
+    /// target can be frozen (Vec, BytesMut and Array targets, bare or inside
+    /// a compressor)
     fn finish_via_message(b: B<Self>, _from: bool) -> Result<Vec<u8>, B<Self>> {
         Err(b)
     }
+    /// the finished target taken apart through the `into_target` /
+    /// `as_target` methods of the compressors and of the stream target:
+    /// (message, stream slice)
+    fn unwrap_octets(self) -> (Vec<u8>, Option<Vec<u8>>);
 }
 
 macro_rules! freezing {
@@ -436,77 +553,136 @@ macro_rules! freezing {
         }
     };
 }
+macro_rules! stream_unwrap {
+    () => {
+        fn stream_slice(&self) -> Option<&[u8]> {
+            Some(self.as_stream_slice())
+        }
+        fn unwrap_octets(self) -> (Vec<u8>, Option<Vec<u8>>) {
+            // as_target() and into_target() give the underlying buffer, which
+            // starts with the two length octets
+            let seen = AsRef::<[u8]>::as_ref(self.as_target()).to_vec();
+            let inner = self.into_target();
+            assert!(seen == AsRef::<[u8]>::as_ref(&inner), "StreamTarget::as_target and into_target disagree");
+            (seen[2..].to_vec(), Some(seen))
+        }
+    };
+}
+macro_rules! bare_unwrap {
+    () => {
+        fn stream_slice(&self) -> Option<&[u8]> {
+            None
+        }
+        fn unwrap_octets(self) -> (Vec<u8>, Option<Vec<u8>>) {
+            (AsRef::<[u8]>::as_ref(&self).to_vec(), None)
+        }
+    };
+}
 impl Tgt for Vec<u8> {
     freezing!();
+    bare_unwrap!();
     fn fresh() -> Self {
         Vec::new()
     }
-    fn stream_slice(&self) -> Option<&[u8]> {
-        None
+    fn fresh_builder(alt: bool) -> MessageBuilder<Self> {
+        if alt {
+            MessageBuilder::new_vec()
+        } else {
+            MessageBuilder::from_target(vec![0xEEu8; 40]).expect("from_target")
+        }
     }
 }
 impl Tgt for BytesMut {
     freezing!();
+    bare_unwrap!();
     fn fresh() -> Self {
         BytesMut::new()
     }
-    fn stream_slice(&self) -> Option<&[u8]> {
-        None
+    fn fresh_builder(alt: bool) -> MessageBuilder<Self> {
+        if alt {
+            MessageBuilder::new_bytes()
+        } else {
+            MessageBuilder::from_target(BytesMut::from(&[0xEEu8; 40][..])).expect("from_target")
+        }
     }
 }
 impl Tgt for Array<512> {
     freezing!();
+    bare_unwrap!();
     fn fresh() -> Self {
         Array::new()
     }
-    fn stream_slice(&self) -> Option<&[u8]> {
-        None
-    }
 }
 impl Tgt for StreamTarget<Vec<u8>> {
+    stream_unwrap!();
     fn fresh() -> Self {
         StreamTarget::new_vec()
     }
-    fn stream_slice(&self) -> Option<&[u8]> {
-        Some(self.as_stream_slice())
+    fn fresh_builder(alt: bool) -> MessageBuilder<Self> {
+        if alt {
+            MessageBuilder::new_stream_vec()
+        } else {
+            MessageBuilder::from_target(Self::fresh()).expect("from_target")
+        }
+    }
+}
+impl Tgt for StreamTarget<BytesMut> {
+    stream_unwrap!();
+    fn fresh() -> Self {
+        StreamTarget::new_bytes()
+    }
+    fn fresh_builder(alt: bool) -> MessageBuilder<Self> {
+        if alt {
+            MessageBuilder::new_stream_bytes()
+        } else {
+            MessageBuilder::from_target(Self::fresh()).expect("from_target")
+        }
     }
 }
 /// a stream target over a fixed array: 34 octets of message
 impl Tgt for StreamTarget<Array<36>> {
+    stream_unwrap!();
     fn fresh() -> Self {
         match StreamTarget::new(Array::new()) {
             Ok(t) => t,
             Err(_) => panic!("no room for the length prefix"),
         }
     }
-    fn stream_slice(&self) -> Option<&[u8]> {
-        Some(self.as_stream_slice())
-    }
 }
-impl<T: Tgt> Tgt for StaticCompressor<T> {
-    fn fresh() -> Self {
-        StaticCompressor::new(T::fresh())
-    }
-    fn stream_slice(&self) -> Option<&[u8]> {
-        self.as_target().stream_slice()
-    }
+/// the compressors over every target; `freezing` where the inner target can
+/// be frozen (FreezeBuilder for the compressor: into_message / Message::from)
+macro_rules! comp_tgt {
+    ($c:ident, $t:ty, $($fr:ident)?) => {
+        impl Tgt for $c<$t> {
+            $($fr!();)?
+            fn fresh() -> Self {
+                $c::new(<$t as Tgt>::fresh())
+            }
+            fn stream_slice(&self) -> Option<&[u8]> {
+                self.as_target().stream_slice()
+            }
+            fn unwrap_octets(self) -> (Vec<u8>, Option<Vec<u8>>) {
+                let seen = AsRef::<[u8]>::as_ref(self.as_target()).to_vec();
+                let (o, s) = self.into_target().unwrap_octets();
+                assert!(seen == o, "compressor: as_target and into_target disagree");
+                (o, s)
+            }
+        }
+    };
 }
-impl<T: Tgt> Tgt for TreeCompressor<T> {
-    fn fresh() -> Self {
-        TreeCompressor::new(T::fresh())
-    }
-    fn stream_slice(&self) -> Option<&[u8]> {
-        self.as_target().stream_slice()
-    }
+macro_rules! comp_tgts {
+    ($c:ident) => {
+        comp_tgt!($c, Vec<u8>, freezing);
+        comp_tgt!($c, BytesMut, freezing);
+        comp_tgt!($c, Array<512>, freezing);
+        comp_tgt!($c, StreamTarget<Vec<u8>>,);
+        comp_tgt!($c, StreamTarget<BytesMut>,);
+        comp_tgt!($c, StreamTarget<Array<36>>,);
+    };
 }
-impl<T: Tgt> Tgt for HashCompressor<T> {
-    fn fresh() -> Self {
-        HashCompressor::new(T::fresh())
-    }
-    fn stream_slice(&self) -> Option<&[u8]> {
-        self.as_target().stream_slice()
-    }
-}
+comp_tgts!(StaticCompressor);
+comp_tgts!(TreeCompressor);
+comp_tgts!(HashCompressor);
 
 //------------ the driver ------------------------------------------------------
 
@@ -549,8 +725,16 @@ pub trait Drive {
     fn rewind(&mut self);
     fn set_limit(&mut self, limit: Option<usize>);
     /// push a question (section 1), a record (2..4) or an OPT record (4,
-    /// rtype 41, through `AdditionalBuilder::opt`); true = Ok
-    fn push(&mut self, it: &Item) -> bool;
+    /// rtype 41, through `AdditionalBuilder::opt`); true = Ok.  `rc`: the
+    /// extended RCODE an OPT push sets through `OptBuilder::set_rcode`
+    fn push(&mut self, it: &Item, rc: Option<u16>) -> bool;
+    /// write the first four octets through `header_mut()`
+    fn set_header(&mut self, h: [u8; 4]);
+    /// the first four octets as read through `header()`
+    fn header(&self) -> [u8; 4];
+    /// start_answer / start_error / request_axfr on a message builder:
+    /// "ok", "gone" (the call failed, the builder is lost) or "-" (start_error)
+    fn start(&mut self, kind: &str, rq: [u8; 4], rc: u8, qs: &[Item]) -> &'static str;
     fn octets(&self) -> Vec<u8>;
     fn len(&self) -> usize;
     fn counts(&self) -> [u16; 4];
@@ -565,13 +749,154 @@ pub struct Driver<T: Tgt> {
 }
 
 impl<T: Tgt> Driver<T> {
-    pub fn new() -> Self {
-        let b = match MessageBuilder::from_target(T::fresh()) {
-            Ok(b) => b,
-            Err(_) => panic!("from_target failed"),
-        };
-        Driver { b: B::M(b), route: 0 }
+    pub fn new(alt: bool) -> Self {
+        Driver { b: B::M(T::fresh_builder(alt)), route: 0 }
     }
+}
+
+/// a TTL value through the constructor the route selects, where the value
+/// can be expressed that way
+fn ttl_of(secs: u32, route: u32) -> Ttl {
+    match (route / 17) % 4 {
+        1 if secs % 60 == 0 => Ttl::from_mins(secs / 60),
+        2 if secs % 3600 == 0 => Ttl::from_hours(secs / 3600),
+        3 if secs % 86400 == 0 => Ttl::from_days((secs / 86400) as u16),
+        _ => Ttl::from_secs(secs),
+    }
+}
+
+/// the four header octets written field by field / read field by field
+fn header_fields(h: [u8; 4]) -> (u16, Flags, Opcode, Rcode, bool) {
+    let mut f = Flags::new();
+    f.qr = h[2] & 0x80 != 0;
+    f.aa = h[2] & 0x04 != 0;
+    f.tc = h[2] & 0x02 != 0;
+    f.rd = h[2] & 0x01 != 0;
+    f.ra = h[3] & 0x80 != 0;
+    f.ad = h[3] & 0x20 != 0;
+    f.cd = h[3] & 0x10 != 0;
+    (
+        u16::from_be_bytes([h[0], h[1]]),
+        f,
+        Opcode::from_int((h[2] >> 3) & 0x0f),
+        Rcode::masked_from_int(h[3] & 0x0f),
+        h[3] & 0x40 != 0,
+    )
+}
+fn flags_octets(id: u16, f: Flags, op: Opcode, rc: Rcode, z: bool) -> [u8; 4] {
+    let i = id.to_be_bytes();
+    let b = |x: bool, m: u8| if x { m } else { 0 };
+    [
+        i[0],
+        i[1],
+        b(f.qr, 0x80) | (op.to_int() << 3) | b(f.aa, 0x04) | b(f.tc, 0x02) | b(f.rd, 0x01),
+        b(f.ra, 0x80) | b(z, 0x40) | b(f.ad, 0x20) | b(f.cd, 0x10) | rc.to_int(),
+    ]
+}
+fn write_header(hd: &mut Header, h: [u8; 4], route: u32) {
+    let (id, f, op, rc, z) = header_fields(h);
+    match route % 4 {
+        0 => {
+            // the whole header at once
+            let mut twelve = [0u8; 12];
+            twelve[..4].copy_from_slice(&h);
+            *hd = *Header::for_message_slice(&twelve);
+        }
+        1 => {
+            hd.set_id(id);
+            hd.set_opcode(op);
+            hd.set_rcode(rc);
+            hd.set_flags(f);
+            hd.set_z(z);
+        }
+        2 => {
+            hd.set_z(z);
+            hd.set_cd(f.cd);
+            hd.set_ad(f.ad);
+            hd.set_ra(f.ra);
+            hd.set_rd(f.rd);
+            hd.set_tc(f.tc);
+            hd.set_aa(f.aa);
+            hd.set_qr(f.qr);
+            hd.set_rcode(rc);
+            hd.set_opcode(op);
+            hd.set_id(id);
+        }
+        _ => {
+            // the flags through their text form
+            let text = f.to_string();
+            let text = if route % 8 >= 4 { text.to_ascii_lowercase() } else { text };
+            hd.set_flags(Flags::from_str(&text).expect("flags text"));
+            hd.set_z(z);
+            hd.set_id(id);
+            hd.set_rcode(rc);
+            hd.set_opcode(op);
+        }
+    }
+}
+fn read_header(hd: Header, route: u32) -> [u8; 4] {
+    match route % 3 {
+        0 => {
+            let s = hd.as_slice();
+            [s[0], s[1], s[2], s[3]]
+        }
+        1 => flags_octets(hd.id(), hd.flags(), hd.opcode(), hd.rcode(), hd.z()),
+        _ => {
+            let mut f = Flags::new();
+            f.qr = hd.qr();
+            f.aa = hd.aa();
+            f.tc = hd.tc();
+            f.rd = hd.rd();
+            f.ra = hd.ra();
+            f.ad = hd.ad();
+            f.cd = hd.cd();
+            flags_octets(hd.id(), f, hd.opcode(), hd.rcode(), hd.z())
+        }
+    }
+}
+
+/// the owner name of a record in the representation the route selects: one
+/// flat name, or a chain of a relative name and a suffix (ToRelativeName::
+/// chain / chain_root; to_vec / to_bytes / to_cow of the relative part)
+macro_rules! with_owner {
+    ($it:expr, $route:expr, $owner:ident => $e:expr) => {{
+        let labels: &Labels = &$it.name;
+        let flat = name_of(labels).expect("valid owner");
+        let sel = ($route / 68) % 6;
+        if sel == 0 || labels.is_empty() {
+            let $owner = flat;
+            $e
+        } else {
+            // split after k labels; the relative part itself is a chain of
+            // its first label and the rest
+            let k = 1 + (($route / 408) as usize) % labels.len();
+            let relname = |ls: &[Vec<u8>]| {
+                let mut rel = vec![];
+                for l in ls {
+                    rel.push(l.len() as u8);
+                    rel.extend_from_slice(l);
+                }
+                RelativeName::from_octets(rel).expect("relative part")
+            };
+            let rel = relname(&labels[..1]).chain(relname(&labels[1..k])).expect("chain");
+            let suffix = name_of(&labels[k..].to_vec()).expect("suffix");
+            assert!(!ToRelativeName::is_empty(&rel));
+            match sel {
+                1 | 2 => {
+                    let $owner = ToRelativeName::to_cow(&rel).chain(suffix).expect("chain");
+                    $e
+                }
+                3 | 4 if k == labels.len() => {
+                    let $owner = ToRelativeName::to_bytes(&rel).chain_root();
+                    $e
+                }
+                _ => {
+                    let $owner = ToRelativeName::to_vec(&rel).chain(suffix).expect("chain");
+                    $e
+                }
+            }
+        }
+    }};
 }
 
 /// can the library represent the item (does its record data parse)?
@@ -606,7 +931,6 @@ fn via_trait<T: Composer, S: RecordSectionBuilder<T>>(s: &mut S, r: impl Compose
 macro_rules! push_routes {
     ($T:ty, $b:expr, $it:expr, $route:expr, $pushref:tt) => {{
         let it: &Item = $it;
-        let owner = name_of(&it.name).expect("valid owner");
         let plain = plain_rdata(it);
         let mut parser = Parser::from_ref(&plain[..]);
         let data = AllRecordData::<&[u8], ParsedName<&[u8]>>::parse_rdata(
@@ -618,9 +942,9 @@ macro_rules! push_routes {
         assert!(parser.remaining() == 0, "record data of the item parsed completely");
         let class = Class::from_int(it.class);
         let secs = u32::from_be_bytes(it.ttl);
-        let ttl = Ttl::from_secs(secs);
+        let ttl = ttl_of(secs, $route);
         let is_in = it.class == 1;
-        match $route % 9 {
+        with_owner!(it, $route, owner => match $route % 17 {
             0 => $b.push(&(owner, class, ttl, data)).is_ok(),
             1 => $b.push(Record::new(owner, class, ttl, data)).is_ok(),
             2 => {
@@ -639,32 +963,103 @@ macro_rules! push_routes {
                 let r = Record::new(owner, class, ttl, data);
                 push_routes!(@pushref $T, $b, r, $pushref)
             }
+            // the From impls of Record
+            9 => $b.push(Record::from((owner, class, secs, data))).is_ok(),
+            10 => $b.push(Record::from((owner, class, ttl, data))).is_ok(),
+            11 if is_in => $b.push(Record::from((owner, secs, data))).is_ok(),
+            // a record made for another class and TTL, then corrected
+            12 => {
+                let mut r = Record::new(owner, Class::CH, Ttl::from_secs(secs ^ 1), data);
+                r.set_class(class);
+                r.set_ttl(ttl);
+                $b.push(r).is_ok()
+            }
+            // a record taken apart and put together again
+            13 => {
+                let r = Record::new(owner, class, ttl, data);
+                let (o, d) = r.into_owner_and_data();
+                $b.push((o, class, ttl, d)).is_ok()
+            }
+            14 => {
+                let r = Record::new(owner, class, ttl, data);
+                let r2: Record<_, _> = RecordHeader::new(r.owner(), r.rtype(), r.class(), r.ttl(), 0)
+                    .into_record(r.data());
+                $b.push(r2).is_ok()
+            }
+            15 => {
+                let r = Record::new(&owner, class, ttl, &data);
+                let r: &Record<_, _> = r.as_ref();
+                via_trait::<$T, _>($b, r)
+            }
             _ => $b.push((owner, class, ttl, data)).is_ok(),
-        }
+        })
     }};
     (@pushref $T:ty, $b:expr, $r:expr, yes) => { $b.push_ref(&$r).is_ok() };
     (@pushref $T:ty, $b:expr, $r:expr, no) => { via_trait::<$T, _>($b, $r) };
 }
 
-/// compose the options of an OPT item through push_raw_option
+/// compose the options of an OPT item through push_raw_option; the header
+/// fields of the OPT record are set, read back through the getters of the
+/// OptBuilder and what was read is written again (so that a getter that
+/// reads the wrong place spoils the record)
 fn raw_options<X: Composer>(
     o: &mut domain::base::message_builder::OptBuilder<'_, X>,
     class: u16,
     ttl: [u8; 4],
     rd: &[u8],
+    rc: Option<u16>,
+    route: u32,
 ) -> Result<(), X::AppendError> {
+    let start_len = o.as_target().as_ref().len();
     o.set_udp_payload_size(class);
     o.set_version(ttl[1]);
     o.set_dnssec_ok(ttl[2] & 0x80 != 0);
+    if let Some(rc) = rc {
+        o.set_rcode(OptRcode::masked_from_int(rc));
+    }
+    if route % 2 == 1 {
+        let (size, version, dok, rcode) = (o.udp_payload_size(), o.version(), o.dnssec_ok(), o.rcode());
+        o.set_udp_payload_size(size ^ 0x5555);
+        o.set_version(!version);
+        o.set_dnssec_ok(!dok);
+        o.set_dnssec_ok(dok);
+        o.set_version(version);
+        o.set_udp_payload_size(size);
+        if rc.is_some() {
+            o.set_rcode(OptRcode::masked_from_int(0xfff ^ rcode.to_int()));
+            o.set_rcode(rcode);
+        }
+    }
     // the data is a sequence of options: code, length, value
     let mut p = 0;
     while p + 4 <= rd.len() {
         let code = u16::from_be_bytes([rd[p], rd[p + 1]]);
         let len = u16::from_be_bytes([rd[p + 2], rd[p + 3]]) as usize;
         let val = &rd[p + 4..p + 4 + len];
-        o.push_raw_option(OptionCode::from_int(code), len as u16, |t| t.append_slice(val))?;
+        o.push_raw_option(OptionCode::from_int(code), len as u16, |t| {
+            // the value through the Compose impls of wire.rs where its
+            // length fits one
+            match (len, (route / 2) % 3) {
+                (4, 1) => std::net::Ipv4Addr::new(val[0], val[1], val[2], val[3]).compose(t),
+                (4, 2) => {
+                    let a = std::net::Ipv4Addr::new(val[0], val[1], val[2], val[3]);
+                    (&&a).compose(t)
+                }
+                (16, 1) | (16, 2) => {
+                    let mut x = [0u8; 16];
+                    x.copy_from_slice(val);
+                    std::net::Ipv6Addr::from(x).compose(t)
+                }
+                (1, 1) | (1, 2) => (val[0] as i8).compose(t),
+                _ => t.append_slice(val),
+            }
+        })?;
         p += 4 + len;
     }
+    assert!(
+        o.as_target().as_ref().len() == start_len + rd.len(),
+        "OptBuilder::as_target does not show the options written"
+    );
     Ok(())
 }
 
@@ -742,7 +1137,7 @@ impl<T: Tgt> Drive for Driver<T> {
         assert!(got == limit, "push_limit() does not return the limit that was set");
     }
 
-    fn push(&mut self, it: &Item) -> bool {
+    fn push(&mut self, it: &Item, rc: Option<u16>) -> bool {
         let route = self.route;
         match &mut self.b {
             B::Q(b) => {
@@ -769,13 +1164,13 @@ impl<T: Tgt> Drive for Driver<T> {
                     let rd = plain_rdata(it);
                     let ttl = it.ttl;
                     let class = it.class;
-                    if route % 2 == 0 {
-                        b.opt(|o| raw_options(o, class, ttl, &rd)).is_ok()
+                    if route % 2 == 0 || rc.is_some() {
+                        b.opt(|o| raw_options(o, class, ttl, &rd, rc, route / 2)).is_ok()
                     } else {
                         // OptBuilder::clone_from an OPT record read from another message
                         let mut scratch = MessageBuilder::new_vec().additional();
                         scratch
-                            .opt(|o| raw_options(o, class, ttl, &rd))
+                            .opt(|o| raw_options(o, class, ttl, &rd, None, route / 2))
                             .expect("scratch OPT");
                         let msg = scratch.into_message();
                         let rec = msg.opt().expect("scratch message has an OPT record");
@@ -790,10 +1185,21 @@ impl<T: Tgt> Drive for Driver<T> {
     }
 
     fn octets(&self) -> Vec<u8> {
-        match self.route % 4 {
+        match self.route % 6 {
             0 => each!(&self.b, b => b.as_slice().to_vec()),
             1 => each!(&self.b, b => <_ as AsRef<[u8]>>::as_ref(b).to_vec()),
             2 => each!(&self.b, b => b.as_message().as_slice().to_vec()),
+            // AsRef<Target> of every builder
+            3 => each!(&self.b, b => <_ as AsRef<T>>::as_ref(b).as_ref().to_vec()),
+            // AsRef<MessageBuilder<Target>> of the section builders
+            4 => match &self.b {
+                B::M(b) => b.as_target().as_ref().to_vec(),
+                B::Q(b) => <_ as AsRef<MessageBuilder<T>>>::as_ref(b).as_slice().to_vec(),
+                B::An(b) => <_ as AsRef<MessageBuilder<T>>>::as_ref(b).as_slice().to_vec(),
+                B::Au(b) => <_ as AsRef<MessageBuilder<T>>>::as_ref(b).as_slice().to_vec(),
+                B::Ad(b) => <_ as AsRef<MessageBuilder<T>>>::as_ref(b).as_slice().to_vec(),
+                B::Gone => panic!("builder used after finish"),
+            },
             _ => match &self.b {
                 B::M(b) => b.as_slice().to_vec(),
                 B::Q(b) => b.as_builder().as_slice().to_vec(),
@@ -808,20 +1214,98 @@ impl<T: Tgt> Drive for Driver<T> {
         each!(&self.b, b => b.as_slice().len())
     }
     fn counts(&self) -> [u16; 4] {
-        let c = if self.route % 2 == 0 {
-            each!(&self.b, b => b.counts())
-        } else {
-            each!(&self.b, b => b.as_message().header_counts())
+        let c = match self.route % 4 {
+            0 | 2 => each!(&self.b, b => b.counts()),
+            1 => each!(&self.b, b => b.as_message().header_counts()),
+            _ => {
+                // the header section of the octets read as a whole
+                let o = each!(&self.b, b => b.as_slice().to_vec());
+                let hs = HeaderSection::for_message_slice(&o);
+                let c: &HeaderCounts = hs.as_ref();
+                assert!(c.as_slice() == hs.counts().as_slice() && c.as_slice() == &o[4..12]);
+                *c
+            }
         };
-        [c.qdcount(), c.ancount(), c.nscount(), c.arcount()]
+        if self.route % 4 == 2 {
+            // the names the counts have in UPDATE messages
+            [c.zocount(), c.prcount(), c.upcount(), c.adcount()]
+        } else {
+            [c.qdcount(), c.ancount(), c.nscount(), c.arcount()]
+        }
+    }
+    fn set_header(&mut self, h: [u8; 4]) {
+        let route = self.route;
+        each!(&mut self.b, b => write_header(b.header_mut(), h, route));
+    }
+    fn header(&self) -> [u8; 4] {
+        let route = self.route;
+        match route % 5 {
+            3 => {
+                let o = each!(&self.b, b => b.as_slice().to_vec());
+                let hs = HeaderSection::for_message_slice(&o);
+                let hd: &Header = hs.as_ref();
+                assert!(hd.as_slice() == hs.header().as_slice());
+                read_header(*hd, route / 5)
+            }
+            4 => each!(&self.b, b => read_header(b.as_message().header(), route / 5)),
+            _ => each!(&self.b, b => read_header(b.header(), route / 5)),
+        }
+    }
+    fn start(&mut self, kind: &str, rq: [u8; 4], rc: u8, qs: &[Item]) -> &'static str {
+        let old = std::mem::replace(&mut self.b, B::Gone);
+        let b = match old {
+            B::M(b) => b,
+            _ => panic!("start_* on something that is not a message builder"),
+        };
+        if kind == "axfr" {
+            let apex = name_of(&qs[0].name).expect("valid apex");
+            return match b.request_axfr(apex) {
+                Ok(a) => {
+                    self.b = B::An(a);
+                    "ok"
+                }
+                Err(_) => "gone",
+            };
+        }
+        // the request: a message with the header octets and the questions
+        let mut req = MessageBuilder::new_vec();
+        write_header(req.header_mut(), rq, self.route / 3);
+        let mut req = req.question();
+        for q in qs {
+            req.push((name_of(&q.name).expect("valid qname"), Rtype::from_int(q.rtype),
+                      Class::from_int(q.class)))
+                .expect("request question");
+        }
+        let rcode = Rcode::masked_from_int(rc);
+        if kind == "answer" {
+            let res = if self.route % 2 == 0 {
+                b.start_answer(&req.into_message(), rcode)
+            } else {
+                b.start_answer(&req.as_message(), rcode)
+            };
+            match res {
+                Ok(a) => {
+                    self.b = B::An(a);
+                    "ok"
+                }
+                Err(_) => "gone",
+            }
+        } else {
+            self.b = B::An(if self.route % 2 == 0 {
+                b.start_error(&req.into_message(), rcode)
+            } else {
+                b.start_error(&req.as_message(), rcode)
+            });
+            "-"
+        }
     }
     fn stream(&self) -> Option<Vec<u8>> {
         each!(&self.b, b => b.as_target().stream_slice().map(|s| s.to_vec()))
     }
     fn finish(&mut self) -> (Vec<u8>, Option<Vec<u8>>) {
         let mut old = std::mem::replace(&mut self.b, B::Gone);
-        match self.route % 4 {
-            1 | 2 => match T::finish_via_message(old, self.route % 4 == 2) {
+        match self.route % 5 {
+            1 | 2 => match T::finish_via_message(old, self.route % 5 == 2) {
                 Ok(octets) => return (octets, None),
                 Err(b) => old = b,
             },
@@ -831,6 +1315,14 @@ impl<T: Tgt> Drive for Driver<T> {
                     return (t.as_ref().to_vec(), t.stream_slice().map(|s| s.to_vec()));
                 }
             }
+            4 => {
+                // the target taken apart with the into_target methods
+                let t: T = each!(old, b => b.finish());
+                let seen = (t.as_ref().to_vec(), t.stream_slice().map(|s| s.to_vec()));
+                let got = t.unwrap_octets();
+                assert!(seen == got, "into_target gives other octets than the target showed");
+                return got;
+            }
             _ => {}
         }
         let t: T = each!(old, b => b.finish());
@@ -838,14 +1330,16 @@ impl<T: Tgt> Drive for Driver<T> {
     }
 }
 
-pub fn make(comp: &str, tgt: &str) -> Box<dyn Drive> {
+/// `alt`: the bare targets are made with the constructor of their own
+/// (new_vec, new_bytes, new_stream_vec, new_stream_bytes) instead of from_target
+pub fn make(comp: &str, tgt: &str, alt: bool) -> Box<dyn Drive> {
     macro_rules! with_comp {
         ($t:ty) => {
             match comp {
-                "static" => Box::new(Driver::<StaticCompressor<$t>>::new()) as Box<dyn Drive>,
-                "tree" => Box::new(Driver::<TreeCompressor<$t>>::new()),
-                "hash" => Box::new(Driver::<HashCompressor<$t>>::new()),
-                _ => Box::new(Driver::<$t>::new()),
+                "static" => Box::new(Driver::<StaticCompressor<$t>>::new(alt)) as Box<dyn Drive>,
+                "tree" => Box::new(Driver::<TreeCompressor<$t>>::new(alt)),
+                "hash" => Box::new(Driver::<HashCompressor<$t>>::new(alt)),
+                _ => Box::new(Driver::<$t>::new(alt)),
             }
         };
     }
@@ -853,6 +1347,7 @@ pub fn make(comp: &str, tgt: &str) -> Box<dyn Drive> {
         "bytes" => with_comp!(BytesMut),
         "array" => with_comp!(Array<512>),
         "stream" => with_comp!(StreamTarget<Vec<u8>>),
+        "sbytes" => with_comp!(StreamTarget<BytesMut>),
         "sarray" => with_comp!(StreamTarget<Array<36>>),
         _ => with_comp!(Vec<u8>),
     }
@@ -861,7 +1356,7 @@ pub fn make(comp: &str, tgt: &str) -> Box<dyn Drive> {
 pub fn cap_of(tgt: &str) -> usize {
     match tgt {
         "array" => 512,
-        "stream" => 65535,
+        "stream" | "sbytes" => 65535,
         "sarray" => 34,
         _ => 1_000_000_000,
     }
